@@ -2,6 +2,7 @@ import IrVerif.Drive.Util
 import IrVerif.Model.AtomicSave
 import IrVerif.Model.AtomicSaveLinks
 import IrVerif.Model.AtomicSaveConc
+import IrVerif.Model.AtomicSaveNest
 /-! Protocol handler for the C08 model (`asave.run`, `asave.image`, `asave.writeat`).
 
 Request `asave.run`:
@@ -395,8 +396,62 @@ def conc (j : Json) : Except String Json := do
     ("crash", crash),
     ("crashLast", crashLast)]
 
+/-! ### Two levels: concurrent shard drivers with inner parallel writers (`saveShardedNest`)
+
+Request `asave.nest`: jobs [[dest, tensors]], par (inner writers are parallel: `workers_per_shard > 1`), cb,
+sched [[k, w | null, task | null, p | null]] (shard, handle of the inner worker or null = the driver thread, the task an
+idle worker takes, fault);
+answer: trace [[k, w | null, eff.., failed]], refused, raised, allDone, jobOk / nBytes / parallel per job, states. -/
+
+def ncstJ (univ : List String) (exts : List (Nat × Ext)) (n : Nat) (c : NCSt) : Json :=
+  (stJ univ exts c.sh).mergeObj (obj [
+    ("tmps", Json.arr ((List.range n).map fun k =>
+      Json.arr #[Json.bool ((c.procs k).loc.fs.isDir .tmpDir), Json.bool ((c.procs k).loc.fs.file .tmpFile).isSome]).toArray),
+    ("pcs", Json.arr ((List.range n).map fun k => Json.str (match (c.procs k).pc with
+      | .init => "init" | .pre _ => "pre" | .pool => "pool" | .closing _ _ => "closing" | .rep => "rep"
+      | .fin1 _ => "fin1" | .fin2 _ => "fin2"
+      | .done true => "raised" | .done false => "returned")).toArray),
+    ("busy", Json.arr ((List.range n).map fun k => toJson (c.procs k).act.length).toArray)])
+
+def nest (j : Json) : Except String Json := do
+  let s0 ← mkSt j
+  let cb ← getBool j "cb"
+  let par ← getBool j "par"
+  let newMode ← getNat j "newMode"
+  let univ ← getStrs j "universe"
+  let exts ← getExts j "exts"
+  let jobs := (← getJobs j).map (mkNJob cb par)
+  let a ← getArr j "sched"
+  let sched ← a.mapM fun x => do
+    let b ← (fromJson? x : Except String (Array Json))
+    let k ← (fromJson? b[0]! : Except String Nat)
+    let w ← if b[1]!.isNull then pure none else (do return some (← (fromJson? b[1]! : Except String Nat)))
+    let tk ← if b[2]!.isNull then pure 0 else (fromJson? b[2]! : Except String Nat)
+    let f ← if b[3]!.isNull then pure none else (do return some (← (fromJson? b[3]! : Except String Nat)))
+    return (⟨k, w, tk, f⟩ : NPick)
+  let res := saveShardedNest newMode jobs sched s0
+  let n := jobs.length
+  let crash := match res.steps.find? (·.failed) with
+    | some st => ncstJ univ exts n st.st
+    | none => Json.null
+  let crashLast := match (res.steps.filter (·.failed)).getLast? with
+    | some st => ncstJ univ exts n st.st
+    | none => Json.null
+  return obj [
+    ("trace", Json.arr (res.steps.map fun s => Json.arr ([toJson s.k, optNatJ s.w] ++ effJ s.eff ++ [Json.bool s.failed]).toArray).toArray),
+    ("refused", Json.bool res.refused),
+    ("raised", Json.bool (res.refused || nAnyRaised n res.final)),
+    ("allDone", Json.bool (nAllDone n res.final)),
+    ("jobOk", Json.arr (jobs.map fun jb => Json.bool (jobOk newMode jb)).toArray),
+    ("parallel", Json.arr (jobs.map fun jb => Json.bool (!jb.tasks.isEmpty)).toArray),
+    ("nBytes", Json.arr (jobs.map fun jb => natsJ (nBytes newMode jb)).toArray),
+    ("final", ncstJ univ exts n res.final),
+    ("crash", crash),
+    ("crashLast", crashLast)]
+
 def handle : Handler := fun m j =>
   match m with
+  | "asave.nest" => some (nest j)
   | "asave.conc" => some (conc j)
   | "asave.run" => some (run j)
   | "asave.runL" => some (runL j)
